@@ -146,8 +146,12 @@ def plan(tier):
 
 # ------------------------------------------------------------------ values
 
-SYMS = ["foo", "bar", "x", "a-b", "+", "None", "setv", "quote-me", "é"]
-STRS = ["", "a", "hello world", 'say "hi"', "it's", "back\\slash", "tab\there", "{brace}", "ünï"]
+SYMS = ["foo", "bar", "x", "a-b", "+", "None", "setv", "quote-me", "é",
+        # long atoms (a size threshold, an interning or memo boundary): the same long value appears in many calls of a
+        # history, inside models and inside plain containers
+        "a-very-long-symbol-name-with-more-than-thirty-two-characters", "long?symbol!with*punctuation+and-more-than-32-chars"]
+STRS = ["", "a", "hello world", 'say "hi"', "it's", "back\\slash", "tab\there", "{brace}", "ünï",
+        "a long string with more than thirty-two characters in it", "x" * 40, 'long "quoted" string \\ with escapes and ünïcödé ' * 2]
 MODELS = {"sym", "mint", "mstr", "mfloat", "mlist", "mtuple", "mset", "mexpr", "mdict"}
 
 
@@ -168,7 +172,7 @@ def gen_atom(rng):
     if r < 0.47:
         return {"t": "none"}
     if r < 0.5:
-        return {"t": "bytes", "v": rng.choice(["", "ab", "q\"q"])}
+        return {"t": "bytes", "v": rng.choice(["", "ab", "q\"q", "bytes value that is longer than thirty-two bytes ..."])}
     if r < 0.58:
         return {"t": "kw", "v": rng.choice(["k", "key-word", "kw2"])}
     if r < 0.75:
